@@ -1,68 +1,7 @@
 //! vcheck <PROPERTY> <quick|thorough>            run the check, write evidence, exit 0/1/2
 //! vcheck <PROPERTY> --replay <file>             re-run one saved case, bypassing proptest
 
-#[macro_use]
-mod engine;
-mod c07_message;
-mod c09_iptable;
-mod c10_fragment;
-mod c11_reassembly;
-mod c12_modcmp;
-mod c15_ipgen;
-mod c15_dhcp;
-mod codecs;
-mod sim;
-mod c05_link;
-mod c06_arp;
-mod c13_barrier;
-mod c14_frames;
-mod c16_routing;
-mod c20_dns;
-mod c04_udp;
-mod c02_sockets;
-mod ndl;
-mod tcb_bench;
-mod tcb_checks;
-
-use engine::*;
-use std::sync::Arc;
-
-fn part(check: impl Check + 'static, quick: u64, thorough: u64) -> Part {
-    Part {
-        check: Arc::new(check),
-        quick_cases: quick,
-        thorough_cases: thorough,
-    }
-}
-
-fn parts_for(id: &str) -> Option<Vec<Part>> {
-    Some(match id {
-        "C04" => vec![part(c04_udp::UdpDemux, 20_000, 600_000)],
-        "C05" => vec![part(c05_link::LinkLayer, 4_000, 300_000)],
-        "C06" => vec![part(c06_arp::ArpResolution, 6_000, 300_000)],
-        "C07" => vec![part(c07_message::MessageOps, 400_000, 8_000_000)],
-        "C09" => vec![
-            part(c09_iptable::TableHistories, 400_000, 6_000_000),
-            part(c09_iptable::NetArithmetic, 400_000, 8_000_000),
-        ],
-        "C08" => vec![part(codecs::Codecs, 600_000, 12_000_000)],
-        "C10" => vec![part(c10_fragment::Fragmentation, 150_000, 3_000_000)],
-        "C11" => vec![part(c11_reassembly::ReassemblyHistories, 100_000, 2_000_000)],
-        "C01" => vec![part(tcb_checks::ReliableStream, 40_000, 3_000_000)],
-        "C02" => vec![part(c02_sockets::StreamSockets { multi_thread: false }, 20_000, 600_000), part(c02_sockets::StreamSockets { multi_thread: true }, 640, 20_000)],
-        "C03" => vec![part(tcb_checks::OpenClose, 40_000, 3_000_000)],
-        "C12" => vec![part(c12_modcmp::ModCmpLaws, 200_000, 4_000_000), part(tcb_checks::IsnIndependence, 20_000, 1_500_000)],
-        "C16" => vec![part(c16_routing::Routing, 20_000, 600_000)],
-        "C17" => vec![part(tcb_checks::HostileSegments, 60_000, 4_000_000)],
-        "C13" => vec![part(c13_barrier::BarrierAndStatus, 6_000, 300_000)],
-        "C14" => vec![part(codecs::DecodersNoPanic, 1_000_000, 20_000_000), part(ndl::NdlNoPanic, 100_000, 3_000_000), part(c14_frames::MalformedFrames, 3_000, 200_000)],
-        "C19" => vec![part(ndl::NdlRoundTrip, 40_000, 2_000_000), part(ndl::NdlRun, 2_000, 100_000)],
-        "C15" => vec![part(c15_ipgen::IpGenHistories, 300_000, 6_000_000), part(c15_dhcp::DhcpLeases, 5_000, 200_000)],
-        "C18" => vec![part(codecs::Codecs, 400_000, 8_000_000), part(codecs::CorruptionRejected, 400_000, 8_000_000)],
-        "C20" => vec![part(c20_dns::DnsResolution, 20_000, 600_000)],
-        _ => return None,
-    })
-}
+use vh::*;
 
 fn main() {
     let args: Vec<String> = std::env::args().collect();
